@@ -129,7 +129,7 @@ def compile_generated(ctx, overlay, names):
         json.dump({"Replace": overlay}, f)
     res = {}
     for n in names:
-        r = sh(["go", "build", "-overlay", ov, "./internal/verifh/gen_" + n], cwd=ctx.repo, timeout=900)
+        r = sh(["go", "build", "-overlay", ov, "./internal/verifh/gen_" + n], cwd=ctx.repo, timeout=3000)
         res[n] = None if r.returncode == 0 else (r.stdout + r.stderr)[-3000:]
     return res
 
@@ -147,7 +147,7 @@ def drive(ctx, mode, overlay, srcs, driven, trace="layouttrace.ndjson"):
         raise
     sd = tlc.stage(ctx, "layout")
     tf = os.path.join(sd, trace)
-    rc, out, err = gobuild.run_driver(ctx, drv, [mode, tf], timeout=1800)
+    rc, out, err = gobuild.run_driver(ctx, drv, [mode, tf], timeout=3400)
     if rc != 0:
         raise Inconclusive("layoutdrv %s died rc=%d: %s" % (mode, rc, err[-3000:]))
     summ = None
